@@ -491,7 +491,7 @@ func runCase(c *run.Ctx, o *run.Outcome) {
 			o.Count("root_level_files", 1)
 		}
 	}
-	witness := map[string]interface{}{"tree": t.Describe(true)}
+	witness := map[string]interface{}{"tree": t.Describe(!isWide(c.Index))} // wide trees: bodies are regenerated on replay
 	var observed []observation
 	o.Witness = witness
 	for i, s := range specs {
